@@ -9,7 +9,7 @@ from vf.harness import Check
 from vf.gen import lens as GL
 from vf.gen.build import build
 from vf.gen import samples as GS
-from vf.gen.edit import edit_strategy, apply_edit
+from vf.gen.edit import edit_strategy, apply_edit, maybe_reload
 from vf.ref import seidel as RS
 
 NAMES = ['TSC', 'SC', 'CC', 'TCC', 'TAC', 'AC', 'TPC', 'PC', 'DC', 'TAchC', 'LchC', 'TchC', 'S']
@@ -62,6 +62,7 @@ class C08(Check):
         ed = case.get('edit')
         if ed:
             # history on one Optic (and its one Aberrations object): all terms, one edit, all terms again
+            o = maybe_reload(o, ed)
             spec2 = apply_edit(o, spec, ed)
             if spec2 is not None:
                 out.cls('recomputed_after_' + ed['kind'] + '_edit')
